@@ -1,7 +1,7 @@
 """C01 -- lossless CST (DESIGN 5.1)."""
 import json
 from framework import *
-import svgen, lexcheck
+import svgen, lexcheck, pegexec
 import svx_grammar, svx_schema, snippets, svtree
 
 PARTIAL = ("run_tiles is proved for every grammar passing the static check and every behaviour of the span primitives / hand "
@@ -76,6 +76,8 @@ def check(ctx):
     n = len(pool) if (deep or not q) else 120
     srcs = list(HAND) + r.sample(pool, min(n, len(pool)))
     n_main = len(srcs)
+    # the regenerated grammar, run by the interpreter the theorems are about, against the real parser: same trees
+    pegexec.correspond(ctx, [(k, s) for k, s in srcs if len(s) < 4000], "c01peg", minimum=100)
     # declarations with their qualifiers in every order (mostly not SystemVerilog): whatever is accepted must tile
     srcs += svgen.qualifier_orders()
     ctx.cov["deepened"] = deep
